@@ -33,7 +33,9 @@ static void limit_checks(Case &c, const Dec &d, const std::vector<uint8_t> &file
 	uint64_t L0 = sel_limit(p.sel, N);
 	if (L0 > RAISE_CAP) L0 = N > RAISE_CAP ? N - 1 : RAISE_CAP;   // governed: never hand out a limit that lets the decoder allocate more than the cap unasked
 	annotate("limit_value", std::to_string(L0));
-	RunOut C = run_dec(d, file.data(), file.size(), L0, p.policy, (D.env || D.governed) ? nullptr : &ladder, p.sch, p.probe_lower, out_hint, RAISE_CAP);
+	const int set_first = c09::rare(c, 90) ? 1 + (int)c.u(2) : 0;   // the chosen limit is installed with lzma_memlimit_set() before any input instead of at initialisation
+	annotate("limit_set_before_input", std::to_string(set_first));
+	RunOut C = run_dec(d, file.data(), file.size(), L0, p.policy, (D.env || D.governed) ? nullptr : &ladder, p.sch, p.probe_lower, out_hint, RAISE_CAP, set_first);
 	if (D.governed && !C.env && C.events && !ladder.empty()) {
 		// the truncated ladder is still binding up to its last entry
 		for (uint64_t n : C.needs) { bool found = false; for (uint64_t m : ladder) if (m == n) found = true; if (!found && n <= ladder.back()) violation("C09:need-differs-between-runs", "%s decoder: need %llu not reported by the discovery run %s", kn, (unsigned long long)n, ladder_str(ladder).c_str()); }
